@@ -35,6 +35,24 @@ CLAIMS = {
             "written with, and that the fixpoint drivers keep known_facts / index / all_facts in lock-step and only stop "
             "on an empty round. Seven confirmed defects are listed as known findings. Least-fixpoint equality is not decided.",
             "MIR field-consultation closure (T-COVER), switch-arm analysis, lock-step paths, controlling conditions"),
+    "C03": ("DESIGN.md §4 C03",
+            "Decides every ordering/atomicity clause of the statement that is a shape of the update executor: deletions "
+            "complete before insertions start (effect points of the lazy iterators), WHERE is evaluated exactly once and both "
+            "templates read that one snapshot, nothing fallible follows a successful dataset-mutating call on the update "
+            "path (three confirmed neural-materialisation sites are known findings), the applier cannot fail, template/plan "
+            "building cannot reach a dataset mutator, blank-node maps are per solution, and the reported counts are the "
+            "mutators' results. Equality with a step-by-step model over all histories is not decided.",
+            "MIR dominance / reachability-after-success, call-graph purity, loop placement, def-use of counts"),
+    "C18": ("DESIGN.md §4 C18",
+            "Decides that the fresh-name generator of backward chaining receives the goal's and bindings' names and tests "
+            "candidates against them (defect fixed), and that chaining consults every rule component (filters and negation "
+            "are ignored: two known findings). Soundness of unification and depth-bounded completeness are not decided.",
+            "MIR taint (inverted: must-depend), field-consultation closure"),
+    "C19": ("DESIGN.md §4 C19",
+            "Decides that admission to the repair list is two-sided (defect fixed), that answers are kept only under `all` "
+            "over every repair but the seed with binding equality, and that every insertion of a derived fact is dominated "
+            "by the false edge of the consistency test on (all facts + candidate). Enumeration of all maximal subsets is not decided.",
+            "MIR dominance/controlling conditions, closure call structure"),
 }
 
 NA = {
